@@ -577,8 +577,14 @@ func recursionForms(r string) []string {
 // only because a panicking interrupt is delivered).
 func (g *PG) infinite(c genCtx) string {
 	g.infDone = true
-	tx := g.tx()
-	shapes := []string{
+	shapes := infiniteShapes(g.tx())
+	return shapes[g.n(0, len(shapes)-1, "infshape")]
+}
+
+// infiniteShapes lists the constructs that never end on their own (tx is a
+// transaction text placed in the bodies that have one).
+func infiniteShapes(tx string) []string {
+	return []string{
 		"for(;;){}",
 		"for(;;);",
 		"while(true){}",
@@ -615,5 +621,4 @@ func (g *PG) infinite(c genCtx) string {
 		"for(;;){try{for(;;){}}catch(ei){}}",
 		"try{LK:for(;;){continue LK}}catch(ei){}",
 	}
-	return shapes[g.n(0, len(shapes)-1, "infshape")]
 }
